@@ -521,12 +521,45 @@ static void collectFunctions(const Constant* c, std::set<const Function*>& out, 
             collectFunctions(oc, out, seen);
 }
 
+// llvm-link leaves isomorphic copies of one class under suffixed names (%"class.X" and %"class.X.17") when translation units
+// disagree about some member's completeness; for dispatch they are the same class
+static std::string classBaseName(Type* t)
+{
+    auto* st = dyn_cast<StructType>(t);
+    if (!st || st->isLiteral() || !st->hasName())
+        return "";
+    std::string n = st->getName().str();
+    // strip, repeatedly, a numeric uniquing suffix (".17") and clang's base-subobject suffix (".base": the class without its
+    // tail padding, which is what a derived class embeds as its first member)
+    for (bool again = true; again;)
+    {
+        again = false;
+        size_t dot = n.find_last_of('.');
+        if (dot == std::string::npos || dot == n.find('.'))
+            break;   // only the "class." / "struct." tag is left in front
+        std::string tail = n.substr(dot + 1);
+        if (tail == "base" || (!tail.empty() && tail.find_first_not_of("0123456789") == std::string::npos))
+        {
+            n.erase(dot);
+            again = true;
+        }
+    }
+    return n;
+}
+static bool sameClass(Type* a, Type* b)
+{
+    if (a == b)
+        return true;
+    std::string na = classBaseName(a), nb = classBaseName(b);
+    return !na.empty() && na == nb;
+}
+
 static bool derivesFrom(Type* d, Type* b)
 {
     // single inheritance: the primary base subobject is the first struct element
     while (d)
     {
-        if (d == b)
+        if (sameClass(d, b))
             return true;
         auto* st = dyn_cast<StructType>(d);
         if (!st || st->isOpaque() || st->getNumElements() == 0)
